@@ -138,16 +138,15 @@ type EncOpts struct {
 
 // Encoder is the reference encoder: one Encoder = one stream.
 type Encoder struct {
-	Out          []byte
-	C            Chooser
-	O            EncOpts
-	Features     map[string]bool
-	classes      []string       // signature per emitted class definition
-	classIdx     map[string]int // signature -> index
-	types        map[string]int // type string -> index
-	ords         map[*Value]int // container -> ordinal
-	ntypes       int
-	typeRepeated bool
+	Out      []byte
+	C        Chooser
+	O        EncOpts
+	Features map[string]bool
+	classes  []string       // signature per emitted class definition
+	classIdx map[string]int // signature -> index
+	types    map[string]int // type string -> index
+	ords     map[*Value]int // container -> ordinal
+	ntypes   int
 }
 
 func NewEncoder(c Chooser, o EncOpts) *Encoder {
@@ -586,17 +585,15 @@ func (e *Encoder) bin(b []byte) {
 }
 
 func (e *Encoder) typ(t string) {
+	// Every literal type string takes a new slot in the table of types seen so far (that
+	// is how the grammar's readers number them: "type ::= string | int", the int indexing
+	// the strings read so far); a back-reference uses the latest slot holding the name.
 	if i, ok := e.types[t]; ok {
-		// the index is offered only while no literal has been repeated on this
-		// stream, so that "table of literals seen" is unambiguous
-		if !e.typeRepeated && e.choose("type", []string{"type.literal", "type.index"}) == "type.index" {
+		if e.choose("type", []string{"type.literal", "type.index"}) == "type.index" {
 			e.int32(int32(i), true)
 			return
 		}
-		e.typeRepeated = true
-		e.str(t, false)
-		e.ntypes++
-		return
+		e.feat("type.literal-repeated")
 	}
 	e.str(t, false)
 	e.types[t] = e.ntypes
